@@ -219,7 +219,7 @@ int pool_script(int scen, ThreadPool &tp, Loop5 &loop) {
     case 8: {   // life cycles: initialize on a ready pool, cleanup with queued/executing work, re-initialise with FEWER resident workers (the default min 0), stale tokens
       bool again = tp.initialize(g_min, g_max); sched_note("O init-while-ready=%d", (int)again);
       snapshot_check(); if (g_min == g_max && sched_unfinished_others() > g_max) sched_fail("%d workers alive after a second initialize(), max is %d", sched_unfinished_others(), g_max);
-      submit(0, 0, true); submit(1, -1, false);
+      submit(0, 2, true); submit(1, -2, false);      // lowest and highest priority level: cleanup must empty every queue
       do_cleanup(); all_joined("after the first cleanup"); reopen();
       if (!tp.initialize(0, g_max)) sched_fail("re-initialize failed");
       submit(2, 0, true); status(1); status(0); wait_task(2); waited = g_epoch; snapshot_check(); break; }
